@@ -7,6 +7,7 @@ import (
 	"fmt"
 	"strings"
 	"testing"
+	"time"
 
 	"go.uber.org/zap"
 	"go.uber.org/zap/zapcore"
@@ -181,9 +182,12 @@ func c17Shape(ops []c17Op) string {
 	return sb.String()
 }
 
-func c17Run(t *rapid.T, ops []c17Op, lvl zapcore.Level) []observer.LoggedEntry {
+func c17Run(t *rapid.T, ops []c17Op, lvl zapcore.Level, wrap ...func(zapcore.Core) zapcore.Core) []observer.LoggedEntry {
 	core, logs := observer.New(zapcore.DebugLevel)
-	w := &zapio.Writer{Log: zap.New(core), Level: lvl}
+	for _, w := range wrap {
+		core = w(core)
+	}
+	w := &zapio.Writer{Log: zap.New(core, zap.WithClock(fixedClock{time.Unix(1000, 0)})), Level: lvl}
 	for i, o := range ops {
 		if o.Kind == "sync" {
 			if err := w.Sync(); err != nil {
@@ -241,9 +245,42 @@ func propC17Model(t *rapid.T) {
 		}
 	}
 	m.sync() // Close
-	got := c17Run(t, ops, lvl)
-	c17Compare(t, got, m.out, lvl)
+	// the logger under the writer may be built on any core; a sampling core decides per MESSAGE, so the
+	// expected messages are the stream's lines filtered by the sampler's documented rule (reference model of C11)
+	want := m.out
+	var wraps []func(zapcore.Core) zapcore.Core
+	coreKind := rapid.SampledFrom([]string{"observer", "observer", "sampler", "sampler", "hooked", "tee", "increase"}).Draw(t, "coreUnderTheWriter")
+	switch coreKind {
+	case "sampler":
+		first := rapid.IntRange(0, 3).Draw(t, "samplerFirst")
+		there := rapid.IntRange(0, 3).Draw(t, "samplerThereafter")
+		wraps = append(wraps, func(c zapcore.Core) zapcore.Core { return zapcore.NewSamplerWithOptions(c, time.Hour, first, there) })
+		md := &c11Model{uint64(first), uint64(there), int64(time.Hour), zapcore.Level(-128), map[c11Key]*c11Window{}}
+		want = nil
+		for _, line := range m.out {
+			if fwd, _, _ := md.decide(lvl, line, time.Unix(1000, 0).UnixNano()); fwd {
+				want = append(want, line)
+			}
+		}
+	case "hooked":
+		wraps = append(wraps, func(c zapcore.Core) zapcore.Core {
+			return zapcore.RegisterHooks(c, func(zapcore.Entry) error { return nil })
+		})
+	case "tee":
+		wraps = append(wraps, func(c zapcore.Core) zapcore.Core { return zapcore.NewTee(zapcore.NewNopCore(), c) })
+	case "increase":
+		wraps = append(wraps, func(c zapcore.Core) zapcore.Core {
+			ic, err := zapcore.NewIncreaseLevelCore(c, zapcore.DebugLevel)
+			if err != nil {
+				return c
+			}
+			return ic
+		})
+	}
+	got := c17Run(t, ops, lvl, wraps...)
+	c17Compare(t, got, want, lvl)
 	nt, sig, labels := c17Classify(ops)
+	labels = append(labels, "core under the writer: "+coreKind)
 	statCase("C17", nt, "model "+sig+" "+c17Shape(ops), labels...)
 	if nt {
 		statSample("C17", func() string { return fmt.Sprint("model ops=", ops, " => ", clip(m.out)) })
@@ -327,7 +364,8 @@ func propC17Level(t *rapid.T) {
 	if mode == "disabled" {
 		setEnabled(false)
 	}
-	var m c17Model // exact model is only asserted when never disabled/always disabled
+	var m c17Model // the stream as if always enabled
+	var x c17Model // the exact model under switching
 	for i, o := range ops {
 		if mode == "switching" && rapid.IntRange(0, 2).Draw(t, "flip") == 0 {
 			setEnabled(!enabled)
@@ -339,12 +377,22 @@ func propC17Level(t *rapid.T) {
 				t.Fatalf("op %d: Sync returned %v", i, err)
 			}
 			m.sync()
+			// a Sync is a split point whether or not the level is enabled: while disabled the pending
+			// partial line is dropped (nothing is logged), it is never glued onto later content
+			if enabled {
+				x.sync()
+			} else {
+				x.pending = x.pending[:0]
+			}
 		} else {
 			n, err := w.Write(o.Chunk)
 			if n != len(o.Chunk) || err != nil {
 				t.Fatalf("op %d (enabled=%v): Write(%d bytes) = (%d, %v)", i, enabled, len(o.Chunk), n, err)
 			}
 			m.write(o.Chunk)
+			if enabled {
+				x.write(o.Chunk) // bytes written while the level is disabled are consumed and dropped
+			}
 		}
 		if !enabled && logs.Len() != before {
 			t.Fatalf("op %d %v logged %d message(s) while the level was disabled", i, o, logs.Len()-before)
@@ -356,6 +404,9 @@ func propC17Level(t *rapid.T) {
 		t.Fatalf("Close logged %d message(s) while the level was disabled", logs.Len()-before)
 	}
 	m.sync()
+	if enabled {
+		x.sync()
+	}
 	for i, e := range logs.All() {
 		if strings.Contains(e.Message, "\n") {
 			t.Fatalf("message %d contains a newline: %q", i, clipS(e.Message))
@@ -368,8 +419,11 @@ func propC17Level(t *rapid.T) {
 		t.Fatalf("disabled writer logged %d messages", logs.Len())
 	}
 	if mode == "switching" && switched == 0 {
-		// never switched: the exact model applies
+		// never switched: the plain model applies
 		c17Compare(t, logs.All(), m.out, zapcore.InfoLevel)
+	}
+	if mode == "switching" {
+		c17Compare(t, logs.All(), x.out, zapcore.InfoLevel)
 	}
 	nt, sig, labels := c17Classify(ops)
 	statCase("C17", nt && (mode == "disabled" || switched > 0), "level "+mode+" "+sig+" "+c17Shape(ops), append(labels, "level "+mode)...)
